@@ -799,3 +799,71 @@ def _owner(node):
     while n is not None and not isinstance(n, ast.FunctionDef):
         n = getattr(n, "_parent", None)
     return n or node
+
+
+# ---------------------------------------------------------------------------
+# who may write Token positions; exception class closure
+
+
+def token_field_stores(repo):
+    """Stores to <...>token.pos / .source / (token).pos outside the Token
+    class: -> [(Func, lineno, text)]"""
+    out = []
+    for q, f in sorted(repo.funcs.items()):
+        if q.startswith("chameleon.tokenize.Token."):
+            continue
+        for n in ast.walk(f.node):
+            tgts = []
+            if isinstance(n, ast.Assign):
+                tgts = n.targets
+            elif isinstance(n, (ast.AugAssign, ast.AnnAssign)):
+                tgts = [n.target]
+            for t in tgts:
+                for x in ast.walk(t):
+                    if isinstance(x, ast.Attribute) and \
+                            isinstance(x.ctx, ast.Store) and \
+                            x.attr in ("pos", "source"):
+                        recv = src(x.value)
+                        if recv == "token" or recv.endswith(".token") or \
+                                recv.endswith("_token"):
+                            out.append((f, n.lineno, src(n)[:80]))
+            if isinstance(n, ast.Call) and src(n.func) == "setattr" and \
+                    len(n.args) >= 2 and "token" in src(n.args[0]) and \
+                    isinstance(n.args[1], ast.Constant) and \
+                    n.args[1].value in ("pos", "source"):
+                out.append((f, n.lineno, src(n)[:80]))
+    return out
+
+
+def class_closure(repo, ci):
+    """names of all (transitive) base classes of a repo class, repo-defined
+    and builtin, -> (set of repo class qualnames, set of builtin names)"""
+    import builtins
+    seen, ext = set(), set()
+    todo = [ci]
+    while todo:
+        c = todo.pop()
+        if c.qualname in seen:
+            continue
+        seen.add(c.qualname)
+        for b in c.node.bases:
+            r = repo.resolve_attr(c.module, b)
+            if r and r[0] == "class":
+                todo.append(r[1])
+            else:
+                name = src(b).split(".")[-1]
+                if hasattr(builtins, name):
+                    ext.add(name)
+                else:
+                    ext.add(src(b))
+    return seen, ext
+
+
+def builtin_subclass(name, others):
+    """is builtin exception `name` a subclass of any builtin in `others`"""
+    import builtins
+    k = getattr(builtins, name, None)
+    if not isinstance(k, type):
+        return False
+    return any(isinstance(getattr(builtins, o, None), type) and
+               issubclass(k, getattr(builtins, o)) for o in others)
